@@ -236,7 +236,8 @@ func init() {
 			"header length + compressed size, controlled by nothing else, both forms reachable (third bound: incompressible chunks are stored raw); (2) binTree.distance " +
 			"converts a node index to a distance as (int(front) - int(v), wrapped by len(node) when <= 0) + wordLen-1 in signed arithmetic (a wrong conversion makes " +
 			"every tree candidate miss: the second bound); (3) OB-M1 with the exact relation `dist > DictLen()` (>= would never use the largest legal distance: X||X " +
-			"with |X| = DictCap). NOT decided, stated plainly: the first two bounds themselves (match-finder effectiveness: rolling hash, chain arithmetic, tree shape) - " +
+			"with |X| = DictCap); (4) CE-BT-WRITE: binTree.Write(p), evaluated on trees of 3 and 5 nodes for all strings over two byte values up to length 7 cut into two calls, " +
+			"is the same state change as WriteByte for every byte (front / hoff follow the dictionary). NOT decided, stated plainly: the first two bounds themselves (match-finder effectiveness: rolling hash, chain arithmetic, tree shape) - " +
 			"exit 0 of this check says nothing about the achieved compression ratio.",
 		run: func(c *Ctx, r *Report) {
 			ruleRawVsCompressed(c, r, "")
@@ -256,6 +257,7 @@ func init() {
 			ruleMatchLen(c, r, "")
 			ruleBlockSizeDefault(c, r, "")
 			ruleHashChain(c, r, "")
+			ruleBinTreeWriteCE(c, r, "")
 		},
 	})
 }
